@@ -1700,6 +1700,29 @@ func (a *Activation) guardCheck(st *State, prefix, ref string, pos token.Pos, wr
 				if priv {
 					continue
 				}
+				// 'unguarded f: reason' in the contract under verification: the unlocked access is justified outside the
+				// monitor discipline (stated reason); no obligation is generated and the reason is listed as an assumption
+				if rc := a.rootContract(); rc != nil {
+					skip := false
+					for _, c := range rc.Clauses {
+						if c.Kind == "unguarded" {
+							fl := c.Expr
+							why := ""
+							if k := strings.Index(fl, ":"); k >= 0 {
+								fl, why = fl[:k], strings.TrimSpace(fl[k+1:])
+							}
+							for _, f := range splitList(fl) {
+								if strings.TrimSpace(f) == g {
+									skip = true
+									t.assumed["unlocked access to "+m.Type+"."+g+" in "+shortName(rc.Full)+" is not checked against the monitor ("+why+")"] = true
+								}
+							}
+						}
+					}
+					if skip {
+						continue
+					}
+				}
 				mref := a.mutexRefOf(st, m, ref)
 				t.regArray("$held", "(Array Int Bool)")
 				held := sApp("select", t.lookup(st, "$held"), mref)
@@ -1977,10 +2000,10 @@ func mutatesUnsyncReceiver(name string) bool {
 			return true
 		}
 	}
-	for _, p := range []string{"bytes.(*Buffer).", "strings.(*Builder)."} {
+	for _, p := range []string{"bytes.(*Buffer).", "strings.(*Builder).", "bytes.(*Reader).", "strings.(*Reader).", "bufio.(*Reader).", "bufio.(*Writer)."} {
 		if strings.HasPrefix(name, p) {
 			m := name[len(p):]
-			for _, w := range []string{"Write", "Read", "Reset", "Truncate", "Grow", "Next", "Unread"} {
+			for _, w := range []string{"Write", "Read", "Reset", "Truncate", "Grow", "Next", "Unread", "Seek", "Discard", "Flush", "Peek"} {
 				if strings.HasPrefix(m, w) {
 					return true
 				}
